@@ -983,18 +983,31 @@ LLE_T = (285.0, 355.0)
 SLE_T = (250.0, 450.0)
 K_SCALES = [1e-3, 1e-2, 0.1, 0.5, 2.0, 10.0, 100.0, 1e3]
 
-# ---- frozen tolerances of C15 (numbers: CALIBRATION_C15 below)
+# ---- frozen tolerances of C15
+# Calibration batches on the unchanged tree (fault-free, brand-new or aged streams as stated, the listed
+# regions excluded), largest values seen over 2300 runs (seeds 1-5, 31, 41, 51; ~3000 probed lle calls):
+#   aged vs brand-new stream ('fresh')      pseudo equilibrium: clause excluded (KF-C15-1); shgo 3.4e-9;
+#                                           differential evolution 4.7e-8   [fraction of the feed]
+#   use_cache True vs False ('cache')       pseudo equilibrium 2.2e-16, shgo 1.1e-7, differential evolution
+#                                           5.9e-6 (legitimate reuse after an edit below the solver's own
+#                                           composition_cache_tolerance = 1e-5)
+#   k-scaled twin / k                       pseudo equilibrium 6.1e-15, differential evolution 2.3e-8, shgo 6.2e-7
+#   SLE dissolved / cap - 1                 given 8.9e-16, computed 6.7e-16; other entries: unchanged bit for bit
+# Equal activities on FRESH streams (the defining clause; 150-300 fresh cases per method):
+#   'pseudo equilibrium': max_i |ln(a_i^L/a_i^l)| between 0.039 and 3.56 (median 0.41) on ALL 125 two-liquid
+#       results - no converged sample exists on the unchanged tree (KF-C15-1); the bound is therefore DERIVED
+#       from the solver's own xtol (1e-9 inner, 1e-12 outer): 1e-6, three orders above it.
+#   'differential evolution': |ln ratio| / sqrt(2 f_tol / m_i) <= 0.20 for 298 of 300 cases (0.71 and 71 for the
+#       other two); 'shgo': <= 0.71 for 95 %, 30-94 for the remaining 5 % (KF-C15-3).  ACT_C = 10 is >= 10 x the
+#       converged cluster's maximum.
 ACT_TOL_PE = 1e-6       # 'pseudo equilibrium': max_i |ln(a_i^L / a_i^l)|, a = x * gamma
 ACT_C = 10.0            # 'shgo' / 'differential evolution': |ln(a_i^L / a_i^l)| <= ACT_C * sqrt(2 * OPT_FTOL / m_i)
 OPT_FTOL = 1e-6         # LLE.shgo_options['f_tol'] == LLE.differential_evolution_options['tol']
-SPLIT_TOL = 1e-4        # max |flow difference| / total feed, fresh twin and cache-vs-no-cache
-SCALE_TOL = 1e-4        # same measure between the k-scaled twin universe (divided by k) and the original
+SPLIT_TOL = 1e-4        # max |flow difference| / feed: fresh twin, cache vs no cache (10 x the solver's own 1e-5)
+SCALE_TOL = 1e-5        # same measure between the k-scaled twin universe (divided by k) and the original
 TOP_TOL = 1e-12         # slack on the mass-fraction ordering
 SLE_RTOL = 1e-9         # "moves only the solute": other entries unchanged, solute total conserved
 SLE_BOUND_RTOL = 1e-9   # dissolved <= (1 + SLE_BOUND_RTOL) * min(present, solvent * x / (1 - x))
-CALIBRATION_C15 = {
-    'batch': 'filled in after calibration',
-}
 
 _lpk = {}
 
@@ -1270,7 +1283,7 @@ class SplitWorld(BaseWorld):
                 # probed lle call with cache reuse allowed, same chemicals, composition within the
                 # cache tolerance, at a temperature LOWER than the remembered one
                 out.append('C15-lle-cache-lower-T')
-            if method == 'pseudo equilibrium' and ev.get('check') in ('fresh', 'cache'):
+            if method == 'pseudo equilibrium' and ev.get('check') in ('fresh', 'cache', 'scale'):
                 # default method on a solver that remembers ANY earlier solution: it starts from the
                 # remembered K and never updates it (or caches the one-phase verdict such a start gave),
                 # so both history clauses (fresh twin, cache vs no cache) can be influenced
@@ -1313,7 +1326,7 @@ class SplitWorld(BaseWorld):
                     ev['activity'] = False
             if self.pre(ev):
                 return ev
-            if op == 'sle' and self.family == 'sle':
+            if op == 'sle' and self.sle_situation(ev) == 'computed_after_given_with_unchanged_chemicals':
                 self.stats['avoided:sle_computed_after_given_can_segfault'] += 1
         return {'op': 'noop'}
 
@@ -1732,6 +1745,10 @@ class SplitWorld(BaseWorld):
             except Exception as e2:
                 twin_exc = e2
             if twin_exc is None or type(twin_exc) is not type(e):
+                # C15's solid-liquid clauses speak about calls that return; they promise no history
+                # independence for SLE, so an exception only the aged solver raises is a statistic
+                self.stats['sle_aged_only_exception:' + type(e).__name__] += 1
+                return ['aged-only-exception', type(e).__name__]
                 self.fail('aged-only-exception',
                           f'sle({ev["solute"]!r}, T={ev["T"]}, solubility={ev.get("solubility")}) raised '
                           f'{type(e).__name__}: {e} on the aged stream; a brand-new stream with the same contents '
